@@ -266,8 +266,16 @@ Record case := mkCase {
   c_old : list path;           (* files with an old access time *)
   c_all_old : bool;            (* threshold so low that everything is old *)
   c_ok : bool;                 (* the call returned nil *)
-  c_after : fsys               (* snapshot after the call *)
+  c_removed : list N;          (* positions in c_before of the entries that are gone after the call *)
+  c_rest_same : bool           (* the snapshot after the call is exactly c_before minus those entries, nothing modified or created *)
 }.
+
+Fixpoint drop_idx (i : N) (rem : list N) (s : fsys) : fsys :=
+  match s with
+  | [] => []
+  | x :: r => if existsb (N.eqb i) rem then drop_idx (N.succ i) rem r else x :: drop_idx (N.succ i) rem r
+  end.
+Definition c_after (c : case) : fsys := drop_idx 0%N (c_removed c) (c_before c).
 
 Fixpoint has_prefix (pat n : name) : bool :=
   match pat, n with
@@ -309,4 +317,4 @@ Definition run_case (c : case) : fsys * res :=
 
 Definition check_case (c : case) : bool :=
   let '(s', r) := run_case c in
-  fs_eqb s' (c_after c) && Bool.eqb (match r with Ok => true | Err _ => false end) (c_ok c).
+  c_rest_same c && fs_eqb s' (c_after c) && Bool.eqb (match r with Ok => true | Err _ => false end) (c_ok c).
